@@ -1,6 +1,6 @@
 """C16 -- suite run: every case once, verdict OK iff all succeed, reporters agree.  See DESIGN.md section 3 / C16."""
 from pyvc.api import (Module, Interface, Method, Iface, Inst, Int, Nat, Bool, Str, Opt, OneOf, Const, Union,
-                      ListOf, FixedList, Any_, EnumOf, Custom, new_opaque, assume_pred)
+                      ListOf, FixedList, FixedDict, Any_, EnumOf, Custom, new_opaque, assume_pred)
 from contracts.common import implies, iff, forall_range, exists_range, is_opaque
 
 from exactly_lib.common.exit_value import ExitValue
@@ -192,6 +192,8 @@ def case_element_ok(e, entry):
 
 XML_LEAF = Inst(etree_model.Element, tag=Str, attrib=Any_, children=Any_, text=Any_, tail=Any_)
 XML_CASE = Inst(etree_model.Element, tag=Str, attrib=Any_, children=ListOf(XML_LEAF), text=Any_, tail=Any_)
+XML_SUITE = Inst(etree_model.Element, tag=Str, attrib=FixedDict(tests=Str, failures=Str, errors=Str),
+                 children=ListOf(XML_CASE), text=Any_, tail=Any_)
 
 JUNIT_ROOT = Inst(junit.JUnitRootSuiteReporter,
                   _root_suite=Any_, _std_output_files=Any_, _output_file=Any_, _error_file=Any_,
@@ -291,7 +293,7 @@ def _mk_additional_attributes(interp, name):
 M.contract(P_JUNIT + ':JUnitRootSuiteReporter._xml_for_suite',
            params=dict(self=JUNIT_ROOT, suite_reporter=SUB_REPORTER, name=Str,
                        additional_attributes=Union(Const(None), Custom(_mk_additional_attributes))),
-           returns=Inst(etree_model.Element, tag=Str, attrib=Any_, children=Any_, text=Any_, tail=Any_),
+           returns=XML_SUITE,
            ensures={
                'tests = number of cases': lambda suite_reporter, result:
                result.attrib['tests'] == str(len(suite_reporter._result)),
@@ -1086,6 +1088,170 @@ M.contract(P_UTILS + ':FileNamesResolverForGlobPattern.resolve',
                                                    environment.suite_file_dir_path.glob(self.pattern)[i]))),
            },
            raises={NOT_ACCESSIBLE: {}}, raises_only=())
+
+# ------------------------------------------------------------------------------ final results of the two reporters
+
+class StdFilesI(Interface):
+    target_class = StdOutputFiles
+    attrs = {'out': Iface(FileI), 'err': Iface(FileI)}
+
+
+PROGRESS_ROOT_IO = Inst(spr.SimpleProgressRootSuiteReporter,
+                        _std_output_files=Iface(StdFilesI), _output_file=Iface(PrinterI),
+                        _error_file=Iface(PrinterI), _sub_reporters=ListOf(SUB_REPORTER), _start_time=Any_,
+                        _total_time_timedelta=Any_, _root_suite_dir_abs_path=Any_)
+
+# assumed: the summary on stderr is rendering only (number of tests, time, the failing cases by identifier)
+M.contract(P_SPR + ':format_final_result_for_valid_suite', trusted=True, modifies={},
+           params=dict(num_cases=Int, elapsed_time=Any_, relativity_root_abs_path=Any_, errors=Any_),
+           returns=FixedList(Str))
+M.trust('simple_progress_reporter.format_final_result_for_valid_suite returns lines of text (the summary on stderr: '
+        'rendering only)')
+
+
+def _every_case_successful(reporter):
+    return forall_range(0, len(reporter._sub_reporters), lambda a: all_successful(reporter._sub_reporters[a]))
+
+
+M.contract(P_SPR + ':SimpleProgressRootSuiteReporter.report_final_results', params=dict(self=PROGRESS_ROOT_IO),
+           returns=Int,
+           ensures={
+               'exit code 0 iff every case ended PASS, SKIPPED or XFAIL, else 4': lambda self, ret:
+               (ret == 0) == _every_case_successful(self) and (ret == 0 or ret == 4),
+               'the identifier OK / ERROR, accordingly, is the last (and only) line on stdout': lambda self, ret, trace:
+               lines_on(trace, self._output_file) == ['OK' if ret == 0 else 'ERROR']
+               and [e for e in trace if e[0] == 'write' and e[1] is self._output_file] == [],
+           }, raises_only=())
+
+M.contract(P_SPR + ':SimpleProgressRootSuiteProcessingReporter.report_invalid_suite',
+           params=dict(self=Inst(spr.SimpleProgressRootSuiteProcessingReporter),
+                       exit_value=Const(exit_values.INVALID_SUITE), reporting_environment=ENVIRONMENT),
+           inline=True,
+           ensures={'prints INVALID_SUITE on stdout': lambda reporting_environment, trace:
+           lines_on(trace, reporting_environment.std_file_printers.out) == ['INVALID_SUITE']},
+           raises_only=())
+
+
+# --- JUnit: the document
+
+class JSuiteI(Interface):
+    """TestSuiteHierarchy as the JUnit reporter reads it"""
+    target_class = structure.TestSuiteHierarchy
+    attrs = {'test_cases': ListOf(CASE), 'source_file': Iface(PathI)}
+
+
+J_SUB_REPORTER = Inst(reporting.SubSuiteReporter, _suite=Iface(JSuiteI), _listener=Any_, _result=ListOf(ENTRY),
+                      _start_time=Iface(DateTimeI))
+
+
+def suite_element_ok(e, reporter):
+    """the counts `_xml_for_suite` promises of the element of one suite (its testcase children: see there)"""
+    results = reporter._result
+    return e.attrib['tests'] == str(len(results)) \
+        and nat_of_str(e.attrib['failures']) + nat_of_str(e.attrib['errors']) \
+        == count_prefix(results, len(results), entry_unsuccessful) \
+        and len(e.children) == len(results) + 3
+
+
+def _mk_junit_with_root_among_the_reporters(interp, name):
+    """the reporter of the root suite is one of the sub-suite reporters (the executor makes one for every
+    suite of the hierarchy), or -- more generally -- none of them is"""
+    r = object.__new__(junit.JUnitRootSuiteReporter)
+    reporters = ListOf(J_SUB_REPORTER).make(interp, name + '._sub_reporters')
+    r._sub_reporters = reporters
+    st = interp.st
+    if st.choose(2) == 0:
+        from pyvc import models as _models
+        k = st.fresh_int(name + '.index_of_root')
+        st.assume(k >= 0)
+        st.assume(k < reporters.length)
+        r._root_suite = _models.slist_elem(interp, reporters, k)._suite
+    else:
+        r._root_suite = Iface(JSuiteI).make(interp, name + '._root_suite')
+    r._std_output_files = Iface(StdFilesI).make(interp, name + '._std_output_files')
+    r._output_file = Any_.make(interp, name + '._output_file')
+    r._error_file = Any_.make(interp, name + '._error_file')
+    r._start_time = None
+    r._total_time_timedelta = None
+    r._root_suite_dir_abs_path = Iface(PathI).make(interp, name + '._root_suite_dir_abs_path')
+    r._host_name = Str.make(interp, name + '._host_name')
+    return r
+
+
+JUNIT_ROOT_IO = Custom(_mk_junit_with_root_among_the_reporters)
+
+
+def _included(reporter, root_suite):
+    """every suite gets an element, except a root suite without cases of its own"""
+    return not (reporter._suite is root_suite and len(root_suite.test_cases) == 0)
+
+
+M.contract(P_JUNIT + ':JUnitRootSuiteReporter._package_and_name',
+           params=dict(self=JUNIT_ROOT_IO, suite=Iface(JSuiteI)), returns=FixedList(Str, Str, as_tuple=True),
+           ensures={'two strings': lambda result: isinstance(result[0], str) and isinstance(result[1], str)},
+           raises_only=())
+
+M.contract(P_JUNIT + ':JUnitRootSuiteReporter._xml_for_suites',
+           params=dict(self=JUNIT_ROOT_IO),
+           returns=Inst(etree_model.Element, tag=Str, attrib=Any_, children=ListOf(XML_SUITE), text=Any_, tail=Any_),
+           setup=lambda interp, args, ghosts: args.update(root_suite=args['self']._root_suite,
+                                                          suite_reporters=args['self']._sub_reporters),
+           ensures={
+               'testsuites: one element per suite, except a root suite without cases': lambda self, result:
+               result.tag == 'testsuites'
+               and len(result.children) == count_prefix(self._sub_reporters, len(self._sub_reporters), _included,
+                                                        self._root_suite),
+               'in the order of the run, each with the counts of its suite': lambda self, result:
+               forall_range(0, len(self._sub_reporters), lambda i:
+                            (not _included(self._sub_reporters[i], self._root_suite))
+                            or suite_element_ok(result.children[count_prefix(self._sub_reporters, i, _included,
+                                                                             self._root_suite)],
+                                                self._sub_reporters[i])),
+           }, raises_only=())
+
+M.loop(P_JUNIT + ':JUnitRootSuiteReporter._xml_for_suites', 0,
+       invariant=lambda _i, self, root, next_suite_id:
+       next_suite_id == 1 + len(root.children)
+       and len(root.children) == count_prefix(self._sub_reporters, _i, _included, self._root_suite)
+       and forall_range(0, _i, lambda i:
+                        (not _included(self._sub_reporters[i], self._root_suite))
+                        or suite_element_ok(root.children[count_prefix(self._sub_reporters, i, _included,
+                                                                       self._root_suite)],
+                                            self._sub_reporters[i])),
+       modifies={'next_suite_id': Int, '@root': None, 'root.children': ListOf(XML_SUITE),
+                 'suite_reporter': 'local', 'package_name': 'local', 'name': 'local'})
+
+def _written_to(trace, file):
+    return [e[2][0] for e in trace if e[0] == 'file-write' and e[1] is file]
+
+
+M.contract(P_JUNIT + ':JUnitRootSuiteReporter.report_final_results', params=dict(self=JUNIT_ROOT_IO), returns=Int,
+           ensures={
+               'exit code 0 whatever the outcome': lambda ret: ret == 0,
+               'one document on stdout, then a line separator': lambda self, trace:
+               len(_written_to(trace, self._std_output_files.out)) == 2
+               and isinstance(_written_to(trace, self._std_output_files.out)[0], etree_model.XmlDocument),
+               'a single suite: its testsuite element with its counts': lambda self, trace:
+               len(self._sub_reporters) != 1
+               or suite_element_ok(_written_to(trace, self._std_output_files.out)[0].root, self._sub_reporters[0]),
+               'otherwise testsuites: one element per suite, except a root suite without cases': lambda self, trace:
+               len(self._sub_reporters) == 1
+               or (_written_to(trace, self._std_output_files.out)[0].root.tag == 'testsuites'
+                   and len(_written_to(trace, self._std_output_files.out)[0].root.children)
+                   == count_prefix(self._sub_reporters, len(self._sub_reporters), _included, self._root_suite)),
+           }, raises_only=())
+
+@M.check('exit-values')
+def _exit_values(ctx):
+    for name, ev, code, ident in (('ALL_PASS', exit_values.ALL_PASS, 0, 'OK'),
+                                  ('FAILED_TESTS', exit_values.FAILED_TESTS, 4, 'ERROR'),
+                                  ('INVALID_SUITE', exit_values.INVALID_SUITE, 3, 'INVALID_SUITE')):
+        ctx.obligation('exit value %s is %s / %d' % (name, ident, code),
+                       ev.exit_code == code and ev.exit_identifier == ident, 'enumeration',
+                       detail={'exit_code': ev.exit_code, 'exit_identifier': ev.exit_identifier})
+    ctx.obligation('JUnit reporter: exit code 0 whatever the outcome', junit.UNCONDITIONAL_EXIT_CODE == 0,
+                   'enumeration')
+
 
 # ------------------------------------------------------------------------------ the status partition
 
